@@ -103,6 +103,24 @@ CHECKS["C09"] = (
     "mesh-dependent functionals of global elements are not traced (numerical search only); which duality/PoU facts "
     "an element claims is frozen in gens/shape_expect.json (partial).")
 
+CHECKS["C17"] = (
+    "Lean 4 proof over an executable model of the tag encoding / node re-ordering + exact correspondence + real file round trips",
+    "Theorems for EVERY table pair (t2f, f2t) satisfying the C11 specification (shown to hold for build_inverse of any "
+    "slot table) and every duplicate-free facet set with legal orientation flags: bit test of the packed per-cell "
+    "integers, decode(encode(B)) = the (facet, flag) pairs of B sorted by facet (flags travel with their facets; "
+    "unoriented sets come back unoriented), subdomain indicator round trip, HEX_MAPPING / INV_HEX_MAPPING mutually "
+    "inverse (27 and first 8 rows), __post_init__ o to_meshio = identity on (t, doflocs) for meshes in Dofs order, "
+    "npz key scheme separates doflocs/t/boundaries/orientations/subdomains for arbitrary names; Lean counterexample for "
+    "the pinned decoder (F4). Model compared exactly with _encode_cell_data/_decode_cell_data/HEX tables/__post_init__/"
+    "real npz archives on every run. Search: real round trips through gmsh 4.1/2.2, vtk (binary/ascii), vtu "
+    "(zlib/raw/ascii), in-memory meshio object, JSON file, dict, npz in a scratch directory for all eight mesh classes "
+    "(incl. curved second order, larger refined meshes), random boundary/interior/oriented/unsorted/empty/full tag "
+    "sets, names with ':' / non-ASCII, user point and cell data, checksums of the exported mesh.",
+    "partial: meshio's writers/readers, numpy.savez and json are exercised, not modelled; the dict form has no Lean "
+    "model (plain field copies); gmsh ASCII variants excluded (meshio 5.3 cannot re-read its own ASCII .msh under "
+    "NumPy 2.x, independent of scikit-fem)",
+)
+
 NOT_YET = {}
 
 
